@@ -726,3 +726,36 @@ def r4(cx):
                          loc=hloc(F.hir_of(mains[0])))
     for name in sorted(set(BESPOKE) - seen):
         cx.violation('yash_builtin::iter', 'bespoke-gone:%s' % name, 'bespoke entry %s is not a registered built-in any more' % name, loc=hloc(reg))
+
+
+# ---------------------------------------------------------------------------------------
+# added after an independent seeded change (kill's bespoke parser)
+@RS.rule('C20.R5', 'K-SIBLING', 'kill: every spelling of the signal operand (-s NAME, -sNAME, -n N, -NAME) is parsed with the same SIG-prefix allowance')
+def r5(cx):
+    import mirq as Q
+    F = cx.F
+    PS = 'yash_builtin::kill::syntax::parse_signal'
+    users = {}
+    for b, blk, t in F.callers_of(lambda names, t: PS in names):
+        users.setdefault(b.root, []).append((b, blk, t))
+    # the option parser is the function that both parses signals and records the chosen one
+    parsers = [r for r in users if any(Q.find_calls(lb, [Q.re.compile(r'kill::syntax::.*set_signal$'), Q.re.compile(r'::set_signal$')])
+                                       for lb in F.logical(r))]
+    cx.require(len(parsers) == 1, 'the kill option parser (parse_signal + set_signal) was not found: %s' % sorted(users))
+    root = parsers[0]
+    cx.fn(root)
+    sites = users[root]
+    cx.floor(len(sites), 4, 'parse_signal call sites in the kill option parser')
+    for b, blk, t in sites:
+        du = Q.DefUse(b)
+        flag = Q.operand_name(b, du, t['a'][2]) if len(t['a']) > 2 else None
+        cx.site('%s: parse_signal(.., %s) at %s' % (b.fn, flag, b.loc(t)))
+        if flag is None or flag.startswith('const'):
+            cx.violation(root, 'sig-prefix-constant', 'one spelling of the signal operand is parsed with a fixed SIG-prefix setting (%s) instead '
+                         'of the mode-dependent one used for the others: `kill -sSIGINT` and `kill -s SIGINT` are then not equivalent'
+                         % flag, loc=b.loc(t))
+    names = {Q.operand_name(b, Q.DefUse(b), t['a'][2]) for b, blk, t in sites if len(t['a']) > 2}
+    names = {n for n in names if n and not n.startswith('const')}
+    if len(names) > 1:
+        cx.violation(root, 'sig-prefix-differs', 'the spellings of the signal operand use different SIG-prefix settings: %s' % sorted(names),
+                     loc=sites[0][0].loc(sites[0][2]))
